@@ -30,8 +30,8 @@ ASSUMPTIONS = ["migen tracer shim (names only)", "addresses are compared at tran
                "converter reads overlapping writes in time may return either value"]
 FLOORS = {"quick": {"bursts_expanded": 6000, "beats_checked": 100000, "n_burst_tuples": 2500, "converter_read_bytes": 30000,
                     "wrap_bursts": 300},
-          "thorough": {"bursts_expanded": 60000, "beats_checked": 1500000, "n_burst_tuples": 9000, "converter_read_bytes": 600000,
-                       "wrap_bursts": 4000}}
+          "thorough": {"bursts_expanded": 60000, "beats_checked": 1200000, "n_burst_tuples": 9000, "converter_read_bytes": 600000,
+                       "wrap_bursts": 3000}}
 SHARD_TIMEOUT = {"quick": 900, "thorough": 3000}
 EXHAUSTIVE = {"thorough": "all legal (offset 0..63, size, burst, len in 0..15+{31,63,127,255}) tuples of the 32- and 64-bit bus",
               "quick": ""}
@@ -62,6 +62,9 @@ def plan(tier, seed):
         chunk = 40
         for i in range(0, len(tp), chunk):
             cases.append({"kind": "b2b", "bus_bytes": bb, "tuples": tp[i:i + chunk], "seed": "%d/C10/b2b/%d/%d" % (seed, bb, i)})
+            for rep in range(3 if tier == "thorough" else 0):
+                # the complete tuple set again under other ready patterns and request gaps
+                cases.append({"kind": "b2b", "bus_bytes": bb, "tuples": tp[i:i + chunk], "seed": "%d/C10/b2b/%d/%d/r%d" % (seed, bb, i, rep)})
     per = 4 if tier == "quick" else 50
     for d, dwf, dwt in [("down", 64, 32), ("down", 128, 32), ("down", 256, 32), ("up", 32, 64), ("up", 32, 128), ("up", 32, 256),
                         ("conv", 32, 32), ("conv", 64, 32), ("conv", 32, 64)]:
